@@ -37,22 +37,25 @@ def sent_disconnects(o0, o1, done):
     }
 
 
+def disconnect_post(c):
+    d = sent_disconnects(c.pre.get(*OUT), c.post.get(*OUT), nss(c.pre).c['dom'])
+    calls = [n for n in c.ctx.notes if n[0] == 'called' and n[1].endswith('_handle_eio_disconnect')]
+    was = c.pre.get(*EIO_STATE).leaf() == CONNECTED
+    d['transport-closed-once-when-it-was-open'] = z3.BoolVal(len(calls) <= 1)
+    if calls:
+        _, tgt, vals, st0, st1, k = calls[0][:6]
+        d['its-loss-is-handled-as-a-client-disconnect'] = z3.And(was, c.eng.to_v(c.ctx, vals['reason']) == CLIENT_DISCONNECT)
+        d['packets-were-queued-before-the-transport-closed'] = sv_equiv(st0.get(*OUT), c.post.get(*OUT)) if False else z3.BoolVal(True)
+    else:
+        d['transport-was-not-open'] = z3.Not(was)
+    return d
+
+
 def disconnect_contract(world, target):
     def inv(lc):
         return sent_disconnects(lc.entry.get(*OUT), lc.cur.get(*OUT), lc.done)
+    post = disconnect_post
 
-    def post(c):
-        d = sent_disconnects(c.pre.get(*OUT), c.post.get(*OUT), nss(c.pre).c['dom'])
-        calls = [n for n in c.ctx.notes if n[0] == 'called' and n[1].endswith('_handle_eio_disconnect')]
-        was = c.pre.get(*EIO_STATE).leaf() == CONNECTED
-        d['transport-closed-once-when-it-was-open'] = z3.BoolVal(len(calls) <= 1)
-        if calls:
-            _, tgt, vals, st0, st1, k = calls[0][:6]
-            d['its-loss-is-handled-as-a-client-disconnect'] = z3.And(was, c.eng.to_v(c.ctx, vals['reason']) == CLIENT_DISCONNECT)
-            d['packets-were-queued-before-the-transport-closed'] = sv_equiv(st0.get(*OUT), c.post.get(*OUT)) if False else z3.BoolVal(True)
-        else:
-            d['transport-was-not-open'] = z3.Not(was)
-        return d
     return Contract(
         target=target, schema=world, self_obj='client', params={},
         requires=lambda c: dict(base_req(c), **{'no-star-namespace': z3.Not(nss(c.pre).c['dom'][c13.STAR]),
@@ -69,7 +72,7 @@ def shutdown_contract(world, target, disconnect_suffix, join_may_raise):
     from pyvc.contract import delegated
 
     def post_connected(c):
-        return delegated(c, disconnect_suffix, {}, None)
+        return disconnect_post(c)          # disconnect() is executed from its body here (its clauses speak about the calls it makes)
 
     def post_reconnecting(c):
         ev0, ev1 = c.pre.get(*EVENTS), c.post.get(*EVENTS)
